@@ -142,9 +142,9 @@ def civil_fields(o, t, tag):
 
 
 @obligation(prop="C05", tier="quick", timeout=900, features=FE, probe="rule_from_timespec", also=("C16",),
-            desc="UtcDateTime::from_timespec(unix_time) is the proleptic Gregorian UTC reading of the instant (year, month, day, hour, minute, second) whenever the year fits in i32, and an error otherwise -- never a panic or a wrong year; the month-walk loop is unrolled 13 times and the bound is refuted as a panic edge",
+            desc="UtcDateTime::from_timespec(unix_time): Ok exactly when the calendar year of the instant fits in i32, and then `year` IS that calendar year (the field the rule evaluator reads), hour/minute/second are the UTC clock reading, month is in 1..=12 and the day within that month's length; never a panic. Thorough tier in addition: (year, month, day) denote exactly the day floor(t / 86400). The month-walk loop is unrolled 13 times and the bound is refuted as a panic edge",
             bounds="all i64 Unix times; loop unrolled 13x (12 months + exit), exceeding it is a checked panic edge",
-            outside="")
+            outside="quick tier: month/day exactness (range only); decided in the thorough tier")
 def c05_m_from_timespec(o):
     o.unwind("::from_timespec", 13)
     t = o.input("t", "i64")
@@ -154,12 +154,27 @@ def c05_m_from_timespec(o):
     fy, fm, fd, fh, fmi, fs = [u.fields[i].e for i in range(6)]
     o.flat = [z3.If(ok, 1, 0)] + [z3.If(ok, x, 0) for x in (fy, fm, fd, fh, fmi, fs)]
     o.no_panic()
-    Y, Mo, D, secs = civil_fields(o, t.e, "r")
-    o.reachable("negative_time", t.e < 0)
+    # The civil date of a day number is unique, so correctness is stated directly on the code's outputs (no reference
+    # decomposition with fresh variables for the solver to match): the date fields form a valid date whose day count
+    # from 1970-01-01 is floor(t / 86400), and the clock fields are t mod 86400.
+    days, secs = t.e / DAY, t.e % DAY
+    o.reachable("negative_time", z3.And(t.e < 0, ok))
     o.reachable("year_out_of_i32", z3.Not(ok))
-    fits = z3.And(Y >= -(1 << 31), Y <= (1 << 31) - 1)
-    o.claim("ok_iff_year_fits", ok == fits)
-    o.claim("fields_are_the_utc_reading", z3.Implies(ok, z3.And(fy == Y, fm == Mo, fd == D, fh == secs / 3600, fmi == secs / 60 % 60, fs == secs % 60)))
+    # the year that floor(t/86400) falls into, bracketed by January 1st of two consecutive years
+    Y = z3.Int("Yref")
+    o.require(z3.And(jan1(Y) <= days, days < jan1(Y + 1)))
+    o.claim("ok_iff_year_fits", ok == z3.And(Y >= -(1 << 31), Y <= (1 << 31) - 1))
+    o.claim("clock_fields", z3.Implies(ok, z3.And(fh == secs / 3600, fmi == secs / 60 % 60, fs == secs % 60)))
+    month_splits = [fm == k for k in range(1, 13)] + [z3.Or(fm < 1, fm > 12)]
+    o.claim("month_and_day_in_range", z3.Implies(ok, z3.And(fm >= 1, fm <= 12, fd >= 1, fd <= dim_expr(fy, fm))), splits=month_splits)
+    o.claim("year_is_the_calendar_year", z3.Implies(ok, fy == Y), splits=[z3.And(fm >= 3, fm <= 12), z3.And(fm >= 1, fm <= 2), z3.Or(fm < 1, fm > 12)])
+    if o.tier == "thorough":
+        # month and day against the day count: decided only in the thorough tier (split on the month and on the residues
+        # of year and year - 1 that fix the floor terms; several splits need minutes)
+        res = [z3.And(fy % 4 != 0), z3.And(fy % 4 == 0, fy % 100 != 0), z3.And(fy % 100 == 0, fy % 400 != 0), fy % 400 == 0]
+        res1 = [z3.And((fy - 1) % 4 != 0), z3.And((fy - 1) % 4 == 0, (fy - 1) % 100 != 0), z3.And((fy - 1) % 100 == 0, (fy - 1) % 400 != 0), (fy - 1) % 400 == 0]
+        date_splits = [z3.And(fm == k, a, b) for k in range(1, 13) for a in res for b in res1] + [z3.Or(fm < 1, fm > 12)]
+        o.claim("date_fields_denote_the_day", z3.Implies(ok, days_ref(fy, fm, fd) == days), splits=date_splits)
 
 
 # ---- the rule as a whole: AlternateTime lookups ---------------------------------------------------------------------
